@@ -21,7 +21,7 @@ for d in sorted(glob.glob(V + "/seeded/C*")):
         info[k]["caught_by"] = ", ".join(out)
 json.dump(info, open(V + "/tools/seed_info.json", "w"), indent=1, sort_keys=True)
 t = open(V + "/DESIGN.md").read()
-for rnd, (lo, hi) in {1: (1, 2), 2: (3, 4), 3: (5, 6), 4: (7, 8), 5: (9, 10)}.items():
+for rnd, (lo, hi) in {1: (1, 2), 2: (3, 4), 3: (5, 6), 4: (7, 8), 5: (9, 10), 6: (11, 12), 7: (13, 14)}.items():
     rows = ["| seeded | change (needs …) | caught by → clause |", "|---|---|---|"]
     for k in sorted(info):
         n = int(k.split("-")[1])
